@@ -8,4 +8,10 @@ MUTANTS = [
     ("t3-timer-half", "secsgem/gem/communication_state_machine.py", "threading.Timer(self._settings.timeouts.t3, self._on_wait_cra_timeout)", "threading.Timer(self._settings.timeouts.t3 / 2, self._on_wait_cra_timeout)"),
     ("disable-keeps-state", "secsgem/gem/handler.py", "        self.protocol.disable()\n        self._communication_state.disable()", "        self.protocol.disable()"),
     ("commack-wrong-value", "secsgem/gem/handler.py", "                commack = self.on_commack_requested()\n", "                commack = 0\n"),
+    # application answer differing between consecutive calls: the state change asks again instead of using what went out on the wire
+    ("wait-cra-asks-application-twice", "secsgem/gem/handler.py", "                if commack == 0:\n                    self._communication_state.s1f13received()", "                if self.on_commack_requested() == 0:\n                    self._communication_state.s1f13received()"),
+    # fast peer: the S1F14 arrives while the timer thread that sent the S1F13 is still inside its transition
+    ("s1f14-dropped-while-state-machine-busy", "secsgem/gem/handler.py", "            elif message.header.stream == 1 and message.header.function == 14:\n", "            elif message.header.stream == 1 and message.header.function == 14:\n                if not self._communication_state._transition_lock.acquire(blocking=False):\n                    return\n                self._communication_state._transition_lock.release()\n"),
+    # fast refusal handled while the previous delay timer thread has not exited yet (PRNG schedule): no new delay timer
+    ("delay-timer-not-rearmed-while-previous-alive", "secsgem/gem/communication_state_machine.py", "        self._comm_delay_timer = threading.Timer(\n            self._settings.establish_communication_timeout,", "        if self._comm_delay_timer is not None and self._comm_delay_timer.is_alive():\n            return\n        self._comm_delay_timer = threading.Timer(\n            self._settings.establish_communication_timeout,"),
 ]
